@@ -288,7 +288,7 @@ def mask_rule(repo: Repo, rep: Report, rid: str) -> None:
         wr = repo.func("bitbuffer.py", "BitBuffer.write")
         bad = wfold["bad"]
         rep.check(not bad, rid, f"{wr.key}:insert", f"write/flush folded over {wfold['cases']} cases: the unit written is the C-order packing of the fields",
-                  f"BitBuffer.write no longer inserts each field at its C-order position: (endian, size, signed, style, widths, pattern, got, want) = {bad[0] if bad else ''}", wr.loc())
+                  f"the unit BitBuffer.write/flush emit is not the C-order packing of the fields in the storage type's encoding: (endian, size, signed, style, widths, pattern, got, want) = {bad[0] if bad else ''}", wr.loc())
         bad = wfold["state_bad"]
         rep.check(not bad, rid, f"{wr.key}:positions", "after the unit is written the buffer is empty again",
                   f"after a unit is written the buffer keeps state {bad[0] if bad else ''}: the next unit would be or-ed over stale bits", wr.loc())
@@ -349,3 +349,6 @@ def run(repo: Repo, rep: Report, tier: str) -> None:
     enum_unwrap_rule(repo, rep, "C06.R4")
     signed_unit_rule(repo, rep, "C06.R5")
     mask_rule(repo, rep, "C06.R6")
+    from .c05 import call_time_rule
+
+    call_time_rule(repo, rep, "C06.R7")
